@@ -5,6 +5,7 @@ V = os.path.dirname(os.path.dirname(os.path.abspath(__file__)))
 props = json.load(open(os.path.join(V, "props.json")))
 na = json.load(open(os.path.join(V, "na.json"))) if os.path.exists(os.path.join(V, "na.json")) else []
 allids = [json.loads(l)["id"] for l in open(os.path.join(V, "properties.jsonl"))]
+props = [p for p in props if p.get("functions") or p.get("lemmas") or p.get("static")]  # claim only where contract obligations exist
 claimed = {p["id"] for p in props}
 checks = []
 for p in sorted(props, key=lambda p: p["id"]):
